@@ -293,7 +293,7 @@ __CPROVER_ensures(VF_RV == 0 ==> (VF_RAD_B(pkt, 0) == code && VF_RAD_B(pkt, 1) =
 __CPROVER_ensures((VF_RV == 0 && !VF_RAD_INIT_ZERO(code, authenticator)) ==> authenticator != NULL)
 __CPROVER_ensures((VF_RV == 0 && !VF_RAD_INIT_ZERO(code, authenticator) && vf_rad_k < 16) ==>
     VF_RAD_B(pkt, 4 + vf_rad_k) == authenticator[vf_rad_k])
-__CPROVER_ensures((VF_RV == 0 && VF_RAD_INIT_ZERO(code, authenticator) && vf_rad_k < 16) ==> VF_RAD_B(pkt, 4 + vf_rad_k) == 0)
+__CPROVER_ensures((VF_RV == 0 && VF_RAD_INIT_ZERO(code, authenticator) && vf_rad_z < 16) ==> VF_RAD_B(pkt, 4 + vf_rad_z) == 0)
 ;
 
 /* packet under construction: header length inside the buffer (and >= 20) */
@@ -458,6 +458,47 @@ __CPROVER_ensures((pkt != NULL && !VF_RAD_CODE_RANDOM(VF_RAD_B(pkt, 0)) && VF_RV
 __CPROVER_ensures((pkt != NULL && !VF_RAD_CODE_RANDOM(VF_RAD_B(pkt, 0)) && VF_RV != EINVAL &&
     vf_md5_k < VF_RAD_LEN(pkt) + key_len) ==>
     vf_md5_at[0] == VF_RAD_AUTH_INPUT(vf_md5_k, pkt, pkt_authenticator_inside != 0, pkt_req, key))
+;
+
+/* ---- Message-Authenticator (RFC 2869 5.14 / RFC 3579 3.2): HMAC-MD5, keyed with the secret, over
+ *     Code || Id || Length || A || attributes with the 16 value bytes of the Message-Authenticator
+ *     attribute taken as zero -- the WHOLE packet, the attributes after that attribute included.
+ * hmac_md5_* replaced by the ghost contracts of stubs/radius_md5.h.  `attr` is the
+ * Message-Authenticator attribute inside the packet, as radius_pkt_attr_find_raw /
+ * radius_pkt_attr_get_from_offset return it (header and, if len == 18, value inside the packet).
+ * A: as for the authenticator, except that an Accounting-Response answering a Status-Server uses the
+ * request's authenticator (the rule FreeRADIUS implements). */
+#define VF_RAD_MA_OFF(pkt, attr)	(VF_OFF(attr) - VF_OFF(pkt))
+#define VF_RAD_MA_A_PKT(pkt, inside)	((inside) || VF_RAD_CODE_RANDOM(VF_RAD_B(pkt, 0)))
+#define VF_RAD_MA_A_REQ(pkt, pkt_req)	(VF_RAD_B(pkt, 0) == 5 ? ((pkt_req) != NULL && VF_RAD_B(pkt_req, 0) == 12) : \
+	(VF_RAD_CODE_REPLY(VF_RAD_B(pkt, 0))))
+#define VF_RAD_MA_INPUT(k, pkt, o, inside, pkt_req)					\
+	(((k) < 4) ? VF_RAD_B(pkt, k) :							\
+	 ((k) < 20) ? (VF_RAD_MA_A_PKT(pkt, inside) ? VF_RAD_B(pkt, k) :			\
+		       VF_RAD_MA_A_REQ(pkt, pkt_req) ? VF_RAD_B(pkt_req, k) : (uint8_t)0) :	\
+	 ((k) >= (o) + 2 && (k) < (o) + 18) ? (uint8_t)0 : VF_RAD_B(pkt, k))
+static inline int
+radius_pkt_attr_msg_authenticator_calc(rad_pkt_hdr_p pkt, rad_pkt_attr_p attr,
+    uint8_t *key, size_t key_len, int pkt_authenticator_inside, rad_pkt_hdr_p pkt_req,
+    uint8_t *msg_authenticator)
+__CPROVER_requires(key_len <= VF_RAD_PKT_MAX)
+__CPROVER_requires(pkt != NULL && VF_RAD_PKT(pkt))
+__CPROVER_requires(VF_RAD_RET_PTR(attr, rad_pkt_attr_p, pkt))
+__CPROVER_requires(VF_RAD_MA_OFF(pkt, attr) >= VF_RAD_HDR_SIZE && VF_RAD_LEN(pkt) - VF_RAD_MA_OFF(pkt, attr) >= 2 &&
+    VF_RAD_B(attr, 1) >= 2 && VF_RAD_B(attr, 1) <= VF_RAD_LEN(pkt) - VF_RAD_MA_OFF(pkt, attr))
+__CPROVER_requires(key == NULL || key_len == 0 || __CPROVER_is_fresh(key, key_len))
+__CPROVER_requires(pkt_req == NULL || __CPROVER_is_fresh(pkt_req, VF_RAD_HDR_SIZE))
+__CPROVER_requires(__CPROVER_is_fresh(msg_authenticator, 16))
+__CPROVER_requires(vf_hm_n == 0)
+__CPROVER_assigns(__CPROVER_object_upto(msg_authenticator, 16))
+__CPROVER_assigns(VF_HM_GHOST_ASSIGNS)
+__CPROVER_ensures(VF_RV == 0 || VF_RV == EINVAL || VF_RV == EBADMSG)
+__CPROVER_ensures((key == NULL && key_len != 0) ==> VF_RV == EINVAL)
+__CPROVER_ensures((!(key == NULL && key_len != 0) && VF_RAD_B(attr, 1) != 18) ==> VF_RV == EBADMSG)
+__CPROVER_ensures(VF_RV == 0 ==> (vf_hm_n == 1 && vf_hm_key[0] == key && vf_hm_key_len[0] == key_len &&
+    vf_hm_len[0] == VF_RAD_LEN(pkt) && VF_HM_DIG_IS(msg_authenticator, 0)))
+__CPROVER_ensures((VF_RV == 0 && vf_md5_k < VF_RAD_LEN(pkt)) ==> vf_hm_at[0] ==
+    VF_RAD_MA_INPUT(vf_md5_k, pkt, VF_RAD_MA_OFF(pkt, attr), pkt_authenticator_inside != 0, pkt_req))
 ;
 #endif /* VF_RAD_MD5_CHAIN */
 
